@@ -1,6 +1,7 @@
 //go:build verif
 
 //verif:dir p2p/host/peerstore/pstoreds
+//verif:also C13 -
 //verif:obligation C09.g the per-peer cap on unconnected addresses, both books side by side (cap 2, the real datastore-backed setAddrs against the real memory book through its public API): after 0..2 single adds at distinct instants (each either unconnected or held by a live connection) and one batch (through AddAddrs or SetAddrs) of 1..3 addresses (expiring after or before the earlier ones), both books hold the same number of addresses, never more than the cap, agree on which of the earlier addresses survive and on whether the LAST address of the batch was kept (facts that do not depend on how either book breaks ties between equal expiries)
 //verif:bound one peer, cap 2, <= 2 earlier addresses, one batch of <= 3 addresses
 //verif:stub flush hooked to "mark clean", harness cache and clock for the datastore book; the memory book runs unmodified behind its public API with the same clock
